@@ -152,8 +152,11 @@ func init() {
 	}
 	Checks["C04"] = func() *Check {
 		return &Check{
-			ID:   "C04",
-			Runs: []Run{{S: efundScenario(), Opt: opt}},
+			ID: "C04",
+			Runs: []Run{{S: efundScenario(), Opt: opt}, {S: withVisit(c02Orders(), nil), Opt: map[Tier]Options{
+				Quick:    {Depth: 5, Budget: 60 * time.Second, ReplayEvery: 16},
+				Thorough: {Depth: 7, Budget: 6 * time.Minute, ReplayEvery: 32, MaxStates: 300000},
+			}}},
 			// books identities of the implementation's own state after every block, registered invariant,
 			// escrow balance moves only by completion / unlock, nothing can be sent into the escrow
 			Owns:        ownsAny("ent.books", "invariant:enterprise", "bal:mod:enterprise", "tx.accept_unexpected:bank.send:blocked_recipient"),
@@ -168,4 +171,9 @@ func init() {
 			Assumptions: []string{"whether the pre-execution stage passed is observed (the payer's sequence advanced), not modelled", "Cosmos-SDK vesting arithmetic is the trusted substrate"},
 		}
 	}
+}
+
+func withVisit(s *Scenario, v func(e *Exec) []Disc) *Scenario {
+	s.Visit = v
+	return s
 }
